@@ -13,6 +13,7 @@
 -/
 import Csvq.Model.Float
 import Csvq.Model.Unicode
+import Csvq.Model.Like
 namespace Csvq.Rel
 open Csvq
 
@@ -319,6 +320,7 @@ inductive CondE
   | between (neg : Bool) (a lo hi : Expr)
   | inList (neg : Bool) (a : Expr) (l : List Profile)
   | truth (a : Expr)
+  | like (neg : Bool) (a pat : Expr)               -- a [NOT] LIKE pat (Model/Like.lean: comparison.go Like)
   | exists (s : Nat)                               -- EXISTS (sub-query s)
   | inSub (neg : Bool) (a : Expr) (s : Nat)        -- a [NOT] IN (sub-query s)
   | anySub (op : COp) (a : Expr) (s : Nat)         -- a op ANY (sub-query s)
@@ -344,6 +346,7 @@ def evalCond (lw : Nat) (r : Row) : CondE → Tern
   | .between neg a lo hi => evalBetween neg (evalExpr lw r a) (evalExpr lw r lo) (evalExpr lw r hi)
   | .inList neg a l => evalIn neg (evalExpr lw r a) l
   | .truth a => (evalExpr lw r a).tern
+  | .like neg a p => Like.evalLike neg (evalExpr lw r a) (evalExpr lw r p)
   | .exists _ => .U
   | .inSub _ _ _ => .U
   | .anySub _ _ _ => .U
@@ -533,6 +536,7 @@ def resolveCond (h : List HField) : CondE → CondE
   | .between neg a lo hi => .between neg (resolveExpr h a) (resolveExpr h lo) (resolveExpr h hi)
   | .inList neg a l => .inList neg (resolveExpr h a) l
   | .truth a => .truth (resolveExpr h a)
+  | .like neg a p => .like neg (resolveExpr h a) (resolveExpr h p)
   | .exists s => .exists s
   | .inSub neg a s => .inSub neg (resolveExpr h a) s
   | .anySub op a s => .anySub op (resolveExpr h a) s
@@ -553,6 +557,7 @@ def condPure : CondE → Bool
   | .between _ a lo hi => exprPure a && exprPure lo && exprPure hi
   | .inList _ a _ => exprPure a
   | .truth a => exprPure a
+  | .like _ a p => exprPure a && exprPure p
   | _ => false
 
 /-! ### sub-queries inside expressions (eval.go: evalSubqueryForValue, evalExists, evalSubqueryForArray)
@@ -641,6 +646,14 @@ def evalCondE (subs : SubEnv) (lw : Nat) (r : Row) : CondE → Except ResErr Ter
     match evalExprE subs lw r a with
     | .error e => .error e
     | .ok x => .ok x.tern
+  | .like neg a p =>
+    -- evalLike: both operands are evaluated (no short-circuit on a NULL left side)
+    match evalExprE subs lw r a with
+    | .error e => .error e
+    | .ok x =>
+      match evalExprE subs lw r p with
+      | .error e => .error e
+      | .ok y => .ok (Like.evalLike neg x y)
   | .exists s =>
     match subs s with
     | .error e => .error e
@@ -709,6 +722,7 @@ def resolveCondEnv (h : List HField) (outer : List (List HField × Row)) : CondE
   | .between neg a lo hi => .between neg (resolveExprEnv h outer a) (resolveExprEnv h outer lo) (resolveExprEnv h outer hi)
   | .inList neg a l => .inList neg (resolveExprEnv h outer a) l
   | .truth a => .truth (resolveExprEnv h outer a)
+  | .like neg a p => .like neg (resolveExprEnv h outer a) (resolveExprEnv h outer p)
   | .exists s => .exists s
   | .inSub neg a s => .inSub neg (resolveExprEnv h outer a) s
   | .anySub op a s => .anySub op (resolveExprEnv h outer a) s
